@@ -187,6 +187,23 @@ pub fn gkey() -> BoxedStrategy<String> {
 #[allow(dead_code)]
 fn _unused() {}
 
+/// The letters whose lower-casing changes their UTF-8 length (computed from std's own tables: about
+/// 25 of them - dotted capital I, U+023A, U+023E, sharp S, Ohm, Kelvin, Angstrom, ...), plus an ASCII
+/// lower-case letter, an ASCII capital, a separator and a two-byte letter that changes case without
+/// changing length. In-place case conversion, buffer sizing and cursor arithmetic are all about
+/// these; every short string over them is enumerated where names and algorithm names are lower-cased.
+pub fn length_changing_alphabet() -> &'static [char] {
+    static A: std::sync::OnceLock<Vec<char>> = std::sync::OnceLock::new();
+    A.get_or_init(|| {
+        let mut v: Vec<char> = (0..=0x10FFFFu32)
+            .filter_map(char::from_u32)
+            .filter(|c| c.to_lowercase().map(char::len_utf8).sum::<usize>() != c.len_utf8())
+            .collect();
+        v.extend(['a', 'B', '.', '\u{c9}']);
+        v
+    })
+}
+
 pub fn is_valid_type(s: &str) -> bool {
     !s.is_empty() && s.bytes().all(|b| b.is_ascii_alphanumeric() || b == b'.' || b == b'+' || b == b'-')
 }
